@@ -501,6 +501,24 @@ def _alarm(signum, frame):
     raise _Timeout()
 
 
+def canon(v, depth=0):
+    """Deterministic text of a value: sets sorted, functions/generators without addresses."""
+    if depth > 12:
+        return '...'
+    if isinstance(v, bool) or v is None or isinstance(v, (int, float, str, bytes)):
+        return repr(v)
+    if isinstance(v, (list, tuple)):
+        o, c = ('[', ']') if isinstance(v, list) else ('(', ')')
+        return o + ', '.join(canon(e, depth + 1) for e in v) + c
+    if isinstance(v, (set, frozenset)):
+        return '{' + ', '.join(sorted(canon(e, depth + 1) for e in v)) + '}'
+    if isinstance(v, dict):
+        return '{' + ', '.join(canon(k, depth + 1) + ': ' + canon(e, depth + 1) for k, e in v.items()) + '}'
+    if callable(v):
+        return '<function>'
+    return '<%s>' % type(v).__name__
+
+
 def run_trace(src, limit=4.0):
     """('ok', repr(trace)) | ('exc', type name, message)"""
     warnings.simplefilter('ignore', SyntaxWarning)
@@ -515,7 +533,7 @@ def run_trace(src, limit=4.0):
     signal.setitimer(signal.ITIMER_REAL, limit)
     try:
         exec(code, g)
-        return ('ok', re.sub(r'<(function|generator object) \S+ at 0x[0-9a-fA-F]+>', r'<\1>', repr(g.get('trace', '<no trace>'))))
+        return ('ok', canon(g.get('trace', '<no trace>')))
     except _Timeout:
         return ('exc', 'Timeout', '')
     except RecursionError:
@@ -1186,6 +1204,9 @@ def inline_cases(script, src, new, line, col):
     for t in refs:
         by_line.setdefault(t.start_pos[0], []).append(t)
     for L, ts in sorted(by_line.items()):
+        if any(t.parent.type == 'trailer' and t.parent.children[0].value == '.' for t in ts):
+            skipped += len(ts)      # `K.x` references: the whole attribute access is replaced (not modelled)
+            continue
         nm = Names()
         x = nm(xname)
         try:
@@ -1385,7 +1406,7 @@ def _edge_is_unary(n):
 
 def expr_sel_features(module_node, req, selected_text, new):
     """Classifier features of an expression selection, computed on the parse tree of the input."""
-    f = dict(starts_on_keyword_operator=False, unary_edge=False, lambda_params=[], fstring_conv=[])
+    f = dict(starts_on_keyword_operator=False, unary_edge=False, lambda_params=[], fstring_conv=[], ends_on_operator=False)
     if selected_text:
         try:
             tr = ast.parse(selected_text.strip(), mode='eval')
@@ -1416,6 +1437,7 @@ def expr_sel_features(module_node, req, selected_text, new):
         return f
     if end.start_pos > until and end.get_previous_leaf() is not None:
         end = end.get_previous_leaf()
+    f['ends_on_operator'] = end.type == 'operator' and end.parent.type in EXPRESSION_PARTS and end.parent.children[0] is not end
     f['starts_on_keyword_operator'] = start.type == 'keyword' and (
         start.value in ('and', 'or', 'in', 'is') or start.value == 'not' and start.parent.type == 'comp_op')
     node = start
@@ -1437,6 +1459,8 @@ def classify_expr_sel(kind, f, status, new):
         return 'non-expression-selection-treated-as-statements'
     if f['starts_on_keyword_operator']:
         return 'range-starts-on-keyword-operator'
+    if f['ends_on_operator']:
+        return 'range-ends-on-operator'
     if f['unary_edge']:
         return 'unary-operator-at-selection-edge'
     if kind == 'xfun' and status[0] != 'syntax':
@@ -1956,7 +1980,7 @@ Definition chk_extract (c : N * expr * expr * expr) : list N :=
 def stream_ev(ctx):
     import parso
     rng = ctx.rng
-    n = ctx.n(1200, 8000)
+    n = ctx.n(1000, 8000)
     cases, metas = [], []
     kinds = {}
     for _ in range(n):
@@ -2000,7 +2024,7 @@ def stream_ev(ctx):
         metas.append(dict(text=text, env=env, expected=exp, outcome=out))
         ctx.count('ev', (text, tuple(sorted(env.items()))), nontrivial=len(text) > 3)
     ctx.stat('ev_outcomes', kinds)
-    res, err = common.coq_eval_N_lists(IMPORTS, 'chk_ev', cases, shard=300, defs=CHK_EV)
+    res, err = common.coq_eval_N_lists(IMPORTS, 'chk_ev', cases, shard=700, defs=CHK_EV, timeout=1500)
     if err:
         raise RuntimeError('coq evaluation failed (ev): ' + err)
     names = {1: 'ev (model semantics) differs from CPython', 2: 'print differs from the token sequence of the text',
@@ -2094,7 +2118,7 @@ def stream_programs(ctx):
     ctx.stat('model_cases', dict(inline=len(icases), extract=len(xcases)))
     # ---- the model on the same inputs
     t1 = time.time()
-    res, err = common.coq_eval_N_lists(IMPORTS, 'chk_inline', icases, shard=150, defs=CHK_INLINE, timeout=900)
+    res, err = common.coq_eval_N_lists(IMPORTS, 'chk_inline', icases, shard=500, defs=CHK_INLINE, timeout=1500)
     if err:
         raise RuntimeError('coq evaluation failed (inline): ' + err)
     names = {1: 'inline_text (new_rule) differs from the text jedi wrote', 2: 'parents differs from tree_name.parent.type',
@@ -2114,7 +2138,7 @@ def stream_programs(ctx):
                 ctx.violation('obligation', dict(what='correspondence inline: ' + '; '.join(names[k] for k in rr) +
                                                  ' (compile and run of this result found nothing, or were reported separately)',
                                                  input=imeta[i], model=shown[-1500:]), nofail=True)
-    res, err = common.coq_eval_N_lists(IMPORTS, 'chk_extract', xcases, shard=300, defs=CHK_INLINE, timeout=900)
+    res, err = common.coq_eval_N_lists(IMPORTS, 'chk_extract', xcases, shard=1000, defs=CHK_INLINE, timeout=1500)
     if err:
         raise RuntimeError('coq evaluation failed (extract): ' + err)
     nbad = 0
